@@ -145,9 +145,12 @@ structure Quirks where
   staleCreateFn : Bool := false
   /-- streaming transformations called Emit even when AggregatePoint had failed -/
   emitAfterFailedAgg : Bool := false
+  /-- median of one float point / mode of one point returned that point itself, time included -/
+  singleKeepsTime : Bool := false
 deriving DecidableEq, Repr, Inhabited
 
-def Quirks.snapshot : Quirks := { seedTimeZero := true, staleCreateFn := true, emitAfterFailedAgg := true }
+def Quirks.snapshot : Quirks :=
+  { seedTimeZero := true, staleCreateFn := true, emitAfterFailedAgg := true, singleKeepsTime := true }
 def Quirks.current : Quirks := {}
 
 structure Cfg where
@@ -374,12 +377,12 @@ def reduce (q : Quirks) (cfg : Cfg) (k : Kind) (xs : List QP) : Option (List RP)
   | .median =>
     match xs with
     | [] => none
-    | [x] => some [{ time := if k == .float then some x.time else none, val := .flt x.val.toF }]
+    | [x] => some [{ time := if k == .float && q.singleKeepsTime then some x.time else none, val := .flt x.val.toF }]
     | _ => some [{ time := none, val := .flt (medianOf xs) }]
   | .mode =>
     match xs with
     | [] => none
-    | [x] => some [{ time := some x.time, val := x.val }]
+    | [x] => some [{ time := if q.singleKeepsTime then some x.time else none, val := x.val }]
     | _ => (modeOf xs).map (fun v => [{ time := none, val := v }])
   | .min | .max | .first | .last =>
     (select cfg.fn xs).map (fun p => [{ time := some p.time, val := p.val, sel := some (p.tags, p.fields) }])
